@@ -312,6 +312,11 @@ CHECKS = {
     technique='runtime monitoring: history monitor with a Python model of the clause store; iterations are consumed answer by answer with scheduled database actions in between',
     text='Stores of 2-7 clauses d(Key, Id) (constant, structure and unbound keys) are built with assertz/1; an outer iteration (call with the key unbound / given / absent, clause/2, or retract/1) is consumed answer by answer and after chosen answers a scheduled action runs: assertz, asserta, retract of the first match, retract of a clause by id (visited or not yet visited), retract by backtracking, retractall, or an inner observation by call or clause/2; the answers of the outer iteration must be the clauses of its call time, inner observations and the final clause/2 listing must equal the model store.',
     note='On this tree the property holds only for call iterations combined with assertz/1 and observations: retract of unvisited clauses (K45), clause/2 iterations under any modification (K46, K50), asserta/1 (K47), assertz mixed with retract (K48, a panic) and hangs after retract (K49) are listed known findings keyed on iteration kind, error kind and whether asserta/retract were used; everything outside those signatures is still reported.'),
+ 'C34': dict(
+    level='exploration',
+    technique='runtime monitoring: process-level observation of worker processes under an address-space limit (how each query ended: answer, Prolog error, time-out, machine panic, death of the process), plus cheap result checks',
+    text='Nine term shapes (long list, right- and left-nested structures, deep unary nesting, deep list nesting, long string, arity-255 structure with deep arguments, conjunction chain, operator chain) of 10^3 and 10^5 nodes (thorough: up to 3*10^6) are built inside the machine and put through 16 operations each (copy, comparison and unification with a copy, occurs-check unification, ground, term_variables, assert and retrieve, findall copy, writing, write-then-read, throw/catch, global variables, =.., subsumes_term, file round trip), 8 list operations (length, reverse, sort, msort, append, nth1, sum, keysort) and 5 long-atom / huge-integer operations; every query runs alone in a worker with an 8 GiB address-space limit; a panic or the death of the worker is a violation, results are compared where they are cheap to know.',
+    note='Time-outs and Prolog errors are accepted outcomes; out-of-memory kills of a worker are reported as inconclusive, not as violations. Quick tier: 471 operations, sizes 10^3 and 10^5.'),
 }
 
 NOT_APPLICABLE_REASON_UNBUILT = ('check designed in DESIGN.md but not built/validated yet in this session; '
